@@ -1,6 +1,8 @@
 """C19 - every `@macro` reference is expanded or reported, never silently kept."""
 import copy
 
+import os
+
 from hypothesis import assume, strategies as st
 
 from vlib import jasm_io
@@ -23,6 +25,7 @@ FAULTS = ["control", "control", "item", "operand", "deref-value", "key-times", "
 FLOORS = {f"fault={f}": 0.03 for f in set(FAULTS)}
 FLOORS["library-rewritten-between-compilations"] = 0.01
 FLOORS["reference-beside-list-macro-invocation"] = 0.01
+FLOORS["supplied-macro-file-cannot-be-read"] = 0.01
 UNDEF = ["@zz_", "@undefined_", "@nope_", "@64bit_", "@8_", "@2nd-op_", "@Q.x_"]  # also names that are not identifiers
 
 
@@ -234,6 +237,21 @@ def evaluate(case):
             ev.dev("unresolved-reference-compiled-silently", fault="reference-beside-list-macro-invocation", invocation=inv, macros=lib, regex=r2[1][:300])
         elif r2[0] == "exc" and "@zz_undefined" not in r2[2]:
             ev.dev("error-does-not-name-the-reference", fault="reference-beside-list-macro-invocation", expected="@zz_undefined", error=list(r2[1:]))
+    if fault == "control" and len(jasm_io.dump_yaml(case["factored"])) % 3 == 2:
+        # every macro file that was supplied is missing / a directory at the moment it is read, the rule has no macros of its own:
+        # the references are neither expanded nor may they reach the matcher - the compilation has to fail
+        ev.tags.append("supplied-macro-file-cannot-be-read")
+        gone = sc.path("c19_gone_macros.yaml")
+        if os.path.isdir(gone):
+            os.rmdir(gone)
+        if len(str(case["factored"])) % 2:
+            os.mkdir(gone)
+        r3 = jasm_io.compile_rule(jasm_io.make_doc(["@rwlib_", "ret"]), macros=[gone])
+        ev.subcases = (ev.subcases or 0) + 1
+        if r3[0] == "ok":
+            ev.dev("unresolved-reference-compiled-silently", fault="supplied-macro-file-cannot-be-read", regex=r3[1][:300], survives="@" in r3[1])
+        if os.path.isdir(gone):
+            os.rmdir(gone)
     if fault == "control" and len(jasm_io.dump_yaml(case["factored"])) % 3 == 0:
         # The same rule text compiled twice with the same macro-file PATH, the file rewritten in between so that a reference loses
         # its definition: the second compilation must report it (through MasterOfPuppets and through Yaml2Regex).
